@@ -465,6 +465,15 @@ def corruptions(here, thorough=False):
             add('%s=%s' % (key, v), 'malformed size', _set(b, P, key, v))
     for v in ['10XB', 'MB', '']:
         add('logfile_maxbytes=' + v, 'malformed size', _set(b, S, 'logfile_maxbytes', v))
+    # doubled suffix letters, suffix twice, suffix only, embedded blanks, decimal point, hex ... on every byte_size key
+    import c14_defaults
+    tables, _ = c14_defaults.code_tables()
+    bad_sizes = ['10KKB', '2GGB', '50MMB', '1kbkb', '12bkb', 'kbkb', 'kb', '10k b', '1 0kb', '1.5gb', '0x10kb', '10kbb',
+                 '10bk', '1e3kb', '10kbmb', '10k', '10kib', '1,000kb', '7mmb', '5gbb']
+    for sec, tab in ((P, 'program'), (S, 'supervisord')):
+        for opt in sorted(set(r[0] for r in tables[tab] if r[1] == 'byte_size')):
+            for v in (bad_sizes if thorough or opt.endswith('logfile_maxbytes') else bad_sizes[:6]):
+                add('%s=%s' % (opt, v), 'malformed size', _set(b, sec, opt, v))
     # malformed exit codes
     for v in ['a', '0,,2', '256', '-1', '0;2', '1.0', '0,2,', ',', '0 2', '300,0']:
         add('exitcodes=' + v, 'malformed exit codes', _set(b, P, 'exitcodes', v))
